@@ -30,11 +30,12 @@ func workDir() string {
 }
 
 type Run struct {
-	Argv   []string          `json:"argv"`
-	Stdin  string            `json:"stdin"`
-	Files  map[string]string `json:"files,omitempty"` // name -> content, created in a private dir; "@name" in argv is replaced by the path
-	Env    []string          `json:"env,omitempty"`
-	OutArg string            `json:"out_arg,omitempty"` // name of a file (in the private dir) the command writes; content returned in Result.OutFile
+	Argv    []string          `json:"argv"`
+	Stdin   string            `json:"stdin"`
+	Files   map[string]string `json:"files,omitempty"` // name -> content, created in a private dir; "@name" in argv is replaced by the path
+	Env     []string          `json:"env,omitempty"`
+	OutArg  string            `json:"out_arg,omitempty"`  // name of a file (in the private dir) the command writes; content returned in Result.OutFile
+	NoStdin bool              `json:"no_stdin,omitempty"` // standard input is /dev/null (a character device) instead of a pipe
 }
 
 type Result struct {
@@ -87,7 +88,9 @@ func (r Run) exec1(timeout time.Duration) Result {
 		}
 	}
 	cmd := exec.Command(crdBin(), argv...)
-	cmd.Stdin = strings.NewReader(r.Stdin)
+	if !r.NoStdin {
+		cmd.Stdin = strings.NewReader(r.Stdin)
+	}
 	var out, errb bytes.Buffer
 	cmd.Stdout = &out
 	cmd.Stderr = &errb
